@@ -203,6 +203,12 @@ pub fn make_sig<C: BlsSignatureImpl + Clone>(lib: &Lib, sr: &Value) -> Result<(S
     let sk = lib.sk::<C>(k);
     let mut pt = if gets(sr, "route") == "whole" {
         *sk.sign(scheme_of(scheme), &id).map_err(|e| e.to_string())?.as_raw_value()
+    } else if gets(sr, "route") == "big" {
+        // recombined from the shares with the listed identifiers of a (t, n) deal, n up to 255
+        let (t, n) = (geti(sr, "t") as usize, geti(sr, "n") as usize);
+        let sh = deal::<C>(&sk, t, n, lib.conc.seed).map_err(|e| e.to_string())?;
+        let parts: Vec<SignatureShare<C>> = geta(sr, "ids").iter().map(|i| sh[i.as_i64().unwrap() as usize - 1].sign(scheme_of(scheme), &id).unwrap()).collect();
+        *Signature::<C>::from_shares(&parts).map_err(|e| format!("from_shares of {} distinct honest shares: {e}", parts.len()))?.as_raw_value()
     } else {
         let (t, n, cnt) = (geti(sr, "t") as usize, geti(sr, "n") as usize, geti(sr, "cnt") as usize);
         let sh = deal::<C>(&sk, t, n, lib.conc.seed).map_err(|e| e.to_string())?;
